@@ -33,6 +33,19 @@ CLAIMS = {
         note='Not decided: equality of written bytes and size for concrete values beyond what the symbolic forms imply (the atoms abstract string contents), overflow of usize sums of '
              'in-memory lengths, behaviour of dependencies (BytePages). Known findings D8 (error after partial write) and D23 (limits 1..=5 keep no header allowance).',
         ref='DESIGN.md section 5 C09'),
+    'C10': dict(
+        technique='typestate/CFG rules on both decoders + path extraction of the payload arms evaluated as expressions over small integer domains + dominance rules on the dispatcher arms (static analysis on MIR)',
+        text='Structural part. In both Codec::decode bodies every consuming call on the receive buffer is followed by state.set on every non-error exit and on the loop back-edge, and '
+             'no Ok(None) exit is reachable after a consumption without it; the DecodeState transition relation extracted from the arms equals the framing automaton and '
+             'PayloadChunk/Publish/Packet items are only built in their arms; a new codec starts in FrameHeader. The paths of the PublishPayload arm and of the arm that announces a PUBLISH '
+             'are extracted (conditions, buffer calls, stored state, returned item) and evaluated for all combinations of buffered 0..9, owed 0..8, header 0..3, min_chunk_size 0..5: exactly '
+             'one outcome, no panic, piece == bytes consumed <= min(buffered, owed) (no byte of the next packet), eof/FrameHeader exactly when nothing remains else PublishPayload(owed - piece), '
+             'no non-final non-empty piece below the minimum, a piece whenever the rest is buffered, no empty chunk, announced size = Remaining Length, declared payload = Remaining Length - header. '
+             'In all four dispatchers the chunk reaches feed_data unmodified, feed_eof exactly on the eof edge, sender restored exactly otherwise, no suspension point between take and feed; '
+             'Publish arms stream exactly when announced size != first piece and install the sender before their first await.',
+        note='Not decided: the item sequence for every cut set of a concrete byte stream and every reader pace (needs execution), the Payload/PlSender buffering itself (dependency-free but '
+             'value-level), fragmentation independence of non-PUBLISH packets beyond the need-more-data discipline above.',
+        ref='DESIGN.md section 5 C10'),
     'C11': dict(
         technique='MIR pairing / must-pass-through rules on the in-flight id set (static analysis)',
         text='Static pairing rules over the four dispatchers: insert of the packet id dominates every handler/control invocation (or the packet has no id); the '
